@@ -36,13 +36,13 @@ const (
 )
 
 type Universe struct {
-	N                      *Names
-	K                      [6]int // k1..k6 (k5, k6 are never members in the exhaustive boxes)
-	A, B, None             int
-	LLong, LChain, LShort  int
-	LNoChain, Empty        int
-	sym                    map[int]string
-	uriSym                 map[string]string
+	N                     *Names
+	K                     [6]int // k1..k6 (k5, k6 are never members in the exhaustive boxes)
+	A, B, None            int
+	LLong, LChain, LShort int
+	LNoChain, Empty       int
+	sym                   map[int]string
+	uriSym                map[string]string
 }
 
 func NewUniverse() *Universe {
@@ -291,6 +291,45 @@ func (b *Box) materialise(l []uint8) ([]string, [][]int8) {
 	return us, ps
 }
 
+// trace: the supporter sets of every account node the model visits (liberal reading), as a
+// canonical string; two lists with the same trace are indistinguishable for the model.
+func (b *Box) trace(w *World, c *Config, l []uint8) string {
+	_, ps := b.materialise(l)
+	var paths [][]int8
+	var bare uint32
+	for _, p := range ps {
+		if hasEmpty(w, p) {
+			continue
+		}
+		if b.Root >= 0 {
+			if len(p) == 1 {
+				bare |= 1 << uint(p[0])
+				continue
+			}
+			if int(p[0]) != b.Root {
+				continue
+			}
+			paths = append(paths, p[1:])
+		} else {
+			paths = append(paths, p)
+		}
+	}
+	return traceString(w, paths, bare)
+}
+
+func traceString(w *World, paths [][]int8, bare uint32) string {
+	tr := map[string]uint32{}
+	w.supporters(paths, bare, true, 0, tr, "")
+	var ks []string
+	for k, v := range tr {
+		if v != 0 { // a node that gathers no supporter is the same as a node never visited
+			ks = append(ks, fmt.Sprintf("%s=%x", k, v))
+		}
+	}
+	sort.Strings(ks)
+	return strings.Join(ks, ";")
+}
+
 func (b *Box) rootSupp(w *World, c *Config, l []uint8) uint32 {
 	_, ps := b.materialise(l)
 	var paths [][]int8
@@ -312,7 +351,7 @@ func (b *Box) rootSupp(w *World, c *Config, l []uint8) uint32 {
 			paths = append(paths, p)
 		}
 	}
-	return w.supporters(paths, bare, true, 0)
+	return w.supporters(paths, bare, true, 0, nil, "")
 }
 
 func without(l []uint8, i int) []uint8 {
@@ -363,10 +402,10 @@ func (b *Box) diagnose(c *Config, l []uint8, impl int, errText string, want int)
 	var sig string
 	if want == MustReject {
 		// URIs the implementation needed although the model says they add no supporter
-		full := b.rootSupp(w, c, min)
+		full := b.trace(w, c, min)
 		off := map[string]bool{}
 		for i, x := range min {
-			if b.rootSupp(w, c, without(min, i)) == full {
+			if b.trace(w, c, without(min, i)) == full {
 				cat := b.URIs[x].Cat
 				for j, y := range min {
 					if j != i && y == x {
@@ -410,6 +449,23 @@ func (b *Box) diagnose(c *Config, l []uint8, impl int, errText string, want int)
 		sig = "acl|rejects-satisfied-rule|" + kind + "|signers=" + strings.Join(os, ",")
 		if r == iError {
 			sig += "|with-error"
+		}
+		// causal probe: does lowering every threshold by 0.001 turn the answer into accept?
+		c2 := &Config{Acct: map[int]*MRule{}, Method: c.Method, Class: c.Class}
+		lower := func(x *MRule) *MRule {
+			if x == nil || x.Kind != 1 {
+				return x
+			}
+			y := *x
+			y.Accept--
+			return &y
+		}
+		for id, x := range c.Acct {
+			c2.Acct[id] = lower(x)
+		}
+		c2.Method = lower(c.Method)
+		if r2, _ := b.call(c2.stub(b.U), us); r2 == iAccept && r != iAccept {
+			sig = "acl|rejects-satisfied-rule|threshold-sum-exactly-at-accept-value"
 		}
 	}
 	_ = rootKind
@@ -470,7 +526,7 @@ func (b *Box) Run(r *ev.Run) {
 	malformedList := make([]bool, nl)
 	for i, l := range b.lists {
 		for _, x := range l {
-			if b.URIs[x].Cat == cMalformed {
+			if b.URIs[x].Cat == cMalformed || b.URIs[x].Cat == cNameBefore {
 				malformedList[i] = true
 			}
 		}
@@ -663,6 +719,15 @@ func (b *Box) Run(r *ev.Run) {
 		}
 	}
 	atomic.AddInt64(&disagreements, total.bad)
+	// one real case per box for the evidence file
+	if len(b.Configs) > 0 && nl > 0 {
+		c := b.Configs[len(b.Configs)*2/3]
+		l := b.lists[nl*3/5]
+		us, ps := b.materialise(l)
+		got, _ := b.call(c.stub(b.U), us)
+		r.Sample(map[string]interface{}{"part": "A", "box": b.Name, "rules": c.describe(b.U), "signers": b.symList(l),
+			"implementation": names[got], "oracle": verdictName(b.oracle(c.world(b.U), c, ps))})
+	}
 
 	r.Evals(int(total.evals))
 	p := "A." + b.Name + "."
@@ -688,6 +753,9 @@ func (b *Box) Run(r *ev.Run) {
 	for s, n := range total.catSeen {
 		seen := map[string]bool{}
 		for _, c := range strings.Split(s, "+") {
+			if c == "" {
+				c = "EMPTY-LIST"
+			}
 			if !seen[c] {
 				seen[c] = true
 				perCat[c] += n
@@ -704,7 +772,7 @@ func (b *Box) Run(r *ev.Run) {
 	}
 	sort.Slice(findings, func(i, j int) bool { return findings[i].sig < findings[j].sig })
 	for _, f := range findings {
-		r.Violation(f.sig, f.detail, f.witness)
+		report("evaluation", f.sig, f.detail, f.witness)
 	}
 	fmt.Fprintf(os.Stderr, "c11: box %-22s configs=%d lists=%d evaluations=%d disagreements(total so far)=%d shapes=%d %.1fs\n", b.Name, len(b.Configs), nl, total.evals,
 		atomic.LoadInt64(&disagreements), len(shapes), time.Since(t0).Seconds())
@@ -730,7 +798,7 @@ func (b *Box) panicFinding(c *Config, l []uint8, text string) finding {
 		jr[b.U.N.list[id]] = rl.JSON(b.U.N)
 	}
 	return finding{sig: "acl|panic-during-evaluation|" + feature,
-		detail: fmt.Sprintf("%s: rules %v, signers %v: the evaluation panicked: %s", b.Name, c.describe(b.U), b.symList(l), text),
+		detail:  fmt.Sprintf("%s: rules %v, signers %v: the evaluation panicked: %s", b.Name, c.describe(b.U), b.symList(l), text),
 		witness: map[string]interface{}{"box": b.Name, "rules": c.describe(b.U), "rules_json": jr, "signer_uris": us, "panic": text}}
 }
 
